@@ -7,7 +7,10 @@ C04 / C05 — MODEL side: the rows of a RESULT/Rows frame as the consumers see t
               TupleColumnName (321), goType (43-102)
   marshal.go  unmarshalTuple on a `[]interface{}` destination (2107-2126), readBytes (2094-2102)
   conn.go     executeQuery: choice of the iterator's metadata with skip-metadata (1432-1448)
-(the code AFTER the repairs of KF-C04-2 (iterScanner.Scan), KF-C04-4 (goType), KF-C04-5 (executeQuery))
+(the code AFTER the repairs of KF-C04-2 (iterScanner.Scan), KF-C04-4 (goType), KF-C04-5 (executeQuery),
+KF-C05-10 (readBytesInternal: fewer than 4 bytes is a returned error), KF-C05-11 (scanColumn: no
+destination left is a returned error), KF-C05-12 (marshal.go readBytes: a field length beyond the data is
+a returned error))
 
 Destinations are observed at the bytes level: a non-nil destination is a recorder implementing
 `gocql.Unmarshaler`, for which `Unmarshal(info, data, dest)` is `dest.UnmarshalCQL(info, data)`
@@ -15,8 +18,7 @@ Destinations are observed at the bytes level: a non-nil destination is a recorde
 A nil destination is `false` in the destination list. Typed decoding is C02/C12's business.
 Paging (`iter.next`) is C15's business: here `next == nil`.
 
-`Outcome.crash` = a Go panic that reaches the caller of Scan / Next (nothing recovers there:
-readInt's `panic(error)` included); `err` is not used by the scan functions (an error is stored in
+`Outcome.crash` = a Go panic that reaches the caller of Scan / Next (nothing recovers there); `err` is not used by the scan functions (an error is stored in
 `iter.err`, reported here as `failed := true`, and the call returns false).
 Core Lean only.
 -/
@@ -24,11 +26,10 @@ import Model.FrameRead
 namespace Rows
 open FrameRead
 
-/-- Iter.readColumn = framer.readBytesInternal called from Scan / Next: readInt's
-    `panic(fmt.Errorf(..))` for fewer than 4 bytes is NOT recovered (→ crash); a length beyond the
-    buffer is a returned error (→ err). -/
+/-- Iter.readColumn = framer.readBytesInternal called from Scan / Next: fewer than 4 bytes for the
+    length, or a length beyond the buffer, is a returned error (→ err). -/
 def readColumn (buf : Bytes) : Outcome (Option Bytes × Bytes) :=
-  if buf.length < 4 then .crash
+  if buf.length < 4 then .err
   else
     let size := int32Of (beNat (buf.take 4))
     let rest := buf.drop 4
@@ -36,13 +37,12 @@ def readColumn (buf : Bytes) : Outcome (Option Bytes × Bytes) :=
     else if rest.length < size.toNat then .err
     else .ok (some (rest.take size.toNat), rest.drop size.toNat)
 
-/-- marshal.go readBytes (called with len(p) ≥ 4): `p[:size], p[size:]` with size beyond the data is a
-    runtime panic -/
+/-- marshal.go readBytes (called with len(p) ≥ 4): a size beyond the data is a returned error -/
 def readField (p : Bytes) : Outcome (Option Bytes × Bytes) :=
   let size := int32Of (beNat (p.take 4))
   let rest := p.drop 4
   if size < 0 then .ok (none, rest)
-  else if rest.length < size.toNat then .crash
+  else if rest.length < size.toNat then .err
   else .ok (some (rest.take size.toNat), rest.drop size.toNat)
 
 /-- one `UnmarshalCQL(info, data)` call on the recorder at destination index `dest` -/
@@ -84,7 +84,7 @@ def unmarshalTuple : List TypeInfo → Bytes → List Bool → Nat → List Call
     destinations consumed and the recorder calls. -/
 def scanColumn (p : Option Bytes) (col : ColumnInfo) (dest : List Bool) (idx : Nat) : ColOut :=
   match dest with
-  | [] => .crash                            -- dest[0]: index out of range
+  | [] => .err []                           -- `if len(dest) == 0 { return 0, error }`
   | d0 :: _ =>
     if !d0 then .ok 1 []                    -- `if dest[0] == nil { return 1, nil }` — also for a tuple column
     else match col.typ with
